@@ -330,10 +330,25 @@ def run_one(run):
                 from abtem.core.axes import OrdinalAxis
 
                 others = [obj] + [obj.copy() * (j + 2.0) for j in range(k - 1)]
-                obj = abtem.stack(others, axis_metadata=OrdinalAxis(label="stk", values=tuple(vals)), axis=pos)
+                # the new axis may reuse a label that already sits in the metadata (from an earlier integer index)
+                stale = [k2 for k2 in model["meta"] if k2.startswith("a") and k2 not in [l for l in model["labels"] if l]]
+                slabel = stale[0] if (stale and r[2] % 2 == 0) else "stk"
+                obj = abtem.stack(others, axis_metadata=OrdinalAxis(label=slabel, values=tuple(vals)), axis=pos)
                 model["arr"] = np.stack([model["arr"]] + [model["arr"] * (j + 2.0) for j in range(k - 1)], axis=pos).astype(arr.dtype)
                 model["axes"].insert(pos, {"kind": "values", "values": vals})
-                model["labels"].insert(pos, "stk")
+                model["labels"].insert(pos, slabel)
+                if r[3] % 2 == 0:
+                    # ... and pick one item of the new axis again: its value must replace whatever the metadata held under that label
+                    applied += 1
+                    if not verify(obj, "stack"):
+                        return
+                    j = r[4] % k
+                    obj = obj[(slice(None),) * pos + (j,)]
+                    model["arr"] = np.take(model["arr"], j, axis=pos)
+                    model["axes"].pop(pos)
+                    model["labels"].pop(pos)
+                    model["meta"][slabel] = vals[j]
+                    name = "stack+index"
             elif name == "concatenate":
                 cands = [d for d in range(n_ens) if model["axes"][d]["kind"] == "values"]
                 if not cands:
@@ -361,7 +376,10 @@ def run_one(run):
                     if name == "reduce-base":
                         bad = obj.sum(axis=model["arr"].ndim - 1)
                     else:
-                        bad = obj[(slice(None),) * n_ens + (0,)]
+                        # an index that reaches a base axis: an integer, a slice, a list or an ndarray item
+                        item = [0, slice(0, 2), [0, 1], np.array([0, 1])][r[0] % 4]
+                        lead = (slice(None),) * n_ens if r[1] % 2 == 0 or n_ens == 0 else (0,) + (slice(None),) * (n_ens - 1)
+                        bad = obj[lead + (item,)]
                     refused = False
                 except (HarnessError, InjectedCrash):
                     raise
